@@ -42,8 +42,10 @@ def worker_exec(tracefile, h, log=False, timeout=3600):
     return json.loads(p.stdout.strip().splitlines()[-1])
 
 
-def run_batch(pid, tier, base, nruns, workers, split, deadline):
-    """Start one interpreter per (hashseed, slice); at most `workers` at a time."""
+def run_batch(pid, tier, base, nruns, workers, split, deadline, on_result=None):
+    """Start one interpreter per (hashseed, slice); at most `workers` at a time.  Results are folded as they arrive
+    (on_result) so that a thorough batch does not keep every run's coverage data in memory; the returned list holds a
+    slim record per run (index, seed, status, digest)."""
     jobs = [(h, k) for k in range(split) for h in range(rng.NHASH)]
     results = []
     errors = []
@@ -54,19 +56,28 @@ def run_batch(pid, tier, base, nruns, workers, split, deadline):
         with sem:
             args = [PY, WORKER, "batch", pid, tier, str(base), str(h), str(nruns), str(k), str(split)]
             p = subprocess.Popen(args, env=_env(h, {"VERIF_DEADLINE": str(deadline)}), stdout=subprocess.PIPE, stderr=subprocess.PIPE, text=True)
-            out, err = p.communicate()
-            local = []
-            for line in out.splitlines():
+            errbuf = []
+            t = threading.Thread(target=lambda: errbuf.append(p.stderr.read()))
+            t.start()
+            for line in p.stdout:
                 line = line.strip()
-                if line:
-                    try:
-                        local.append(json.loads(line))
-                    except Exception:
+                if not line:
+                    continue
+                try:
+                    r = json.loads(line)
+                except Exception:
+                    with lock:
                         errors.append(f"worker h={h}: bad line {line[:200]}")
-            with lock:
-                results.extend(local)
-                if p.returncode != 0:
-                    errors.append(f"worker h={h} k={k} rc={p.returncode}: {err[-3000:]}")
+                    continue
+                with lock:
+                    if on_result is not None:
+                        on_result(r)
+                    results.append({"i": r.get("i"), "seed": r.get("seed"), "status": r.get("status"), "digest": r.get("digest")})
+            p.wait()
+            t.join()
+            if p.returncode != 0:
+                with lock:
+                    errors.append(f"worker h={h} k={k} rc={p.returncode}: {''.join(errbuf)[-3000:]}")
 
     ths = [threading.Thread(target=job, args=j) for j in jobs]
     for t in ths:
@@ -190,24 +201,22 @@ def check(pid, tier, args):
         elif exp.startswith("known:") and exp[6:] not in (r.get("known_hits") or {}):
             stale.append((exp[6:], fp))
 
-    # 2. seeded batch
-    results, errors = run_batch(pid, tier, base, nruns, workers, split, deadline)
-    harness.extend(errors)
-    done = [r for r in results if r.get("status") not in ("skipped_wall_cap",)]
-    skipped = len(results) - len(done)
-    if len(results) != nruns and not errors:
-        harness.append(f"expected {nruns} run results, got {len(results)}")
+    # 2. seeded batch (results folded as they arrive)
     agg_probes, agg_ops, agg_faults, max_steps = {}, {}, {}, {}
     states, kgrams, tdig_nontrivial, tdig_all = set(), set(), set(), set()
     samples = []
-    nops = 0
-    checks = 0
+    counters = {"nops": 0, "checks": 0, "done": 0, "skipped": 0}
     bad = []
-    for r in done:
+
+    def fold(r):
         st = r.get("status")
+        if st == "skipped_wall_cap":
+            counters["skipped"] += 1
+            return
+        counters["done"] += 1
         if st == "harness_error":
             harness.append(f"run i={r.get('i')} seed={r.get('seed')}: {r.get('detail', '')[:1500]}")
-            continue
+            return
         for src, dst in ((r.get("probes"), agg_probes), (r.get("opkinds"), agg_ops), (r.get("faults"), agg_faults), (r.get("known_hits"), known_hits)):
             for k, v in (src or {}).items():
                 dst[k] = dst.get(k, 0) + v
@@ -215,15 +224,24 @@ def check(pid, tier, args):
             max_steps[k] = max(max_steps.get(k, 0), v)
         states.update(r.get("states") or ())
         kgrams.update(r.get("kgrams") or ())
-        nops += r.get("nops", 0)
-        checks += r.get("checks", 0)
+        counters["nops"] += r.get("nops", 0)
+        counters["checks"] += r.get("checks", 0)
         tdig_all.add(r.get("tdigest"))
         if r.get("nontrivial"):
             tdig_nontrivial.add(r.get("tdigest"))
         if "trace" in r and st == "ok" and len(samples) < 3:
             samples.append({"run_index": r["i"], "run_seed": r["seed"], "config": r["trace"].get("config"), "ops": r["trace"]["ops"][:40]})
-        if st == "violation":
+        if st == "violation" and len(bad) < 200:
             bad.append(r)
+
+    results, errors = run_batch(pid, tier, base, nruns, workers, split, deadline, on_result=fold)
+    harness.extend(errors)
+    skipped = counters["skipped"]
+    ndone = counters["done"]
+    nops, checks = counters["nops"], counters["checks"]
+    if len(results) != nruns and not errors:
+        harness.append(f"expected {nruns} run results, got {len(results)}")
+    bad.sort(key=lambda r: r["i"])
 
     # 3. minimise + verify (first run per distinct oracle, at most 3 oracles)
     seen = set()
@@ -269,7 +287,7 @@ def check(pid, tier, args):
         "wall_s": round(wall, 2),
         "violations": len(violations),
         "coverage": {
-            "evaluations": len(done),
+            "evaluations": ndone,
             "distinct_nontrivial": len(tdig_nontrivial),
             "rule": prop.RULE,
             "samples": samples or [{"note": "no fault-free sample retained"}],
@@ -282,7 +300,7 @@ def check(pid, tier, args):
             "probes_at_zero": zero,
             "distinct_model_states": len(states),
             "distinct_interleavings_4gram": len(kgrams),
-            "runs_per_hour": int(len(done) / wall * 3600) if wall > 0 else 0,
+            "runs_per_hour": int(ndone / wall * 3600) if wall > 0 else 0,
             "simulated_time": "none: rdflib has no clocks or timers on these paths; unit of progress = scheduler step (operations_executed)",
             "corpus_traces_run": len(corp),
             "hashseeds": rng.NHASH,
@@ -299,7 +317,7 @@ def check(pid, tier, args):
     os.makedirs(EVID, exist_ok=True)
     with open(os.path.join(EVID, f"{pid}.json"), "w") as f:
         json.dump(ev, f, indent=1, sort_keys=False)
-    print(f"{pid}: runs={len(done)} ops={nops} checks={checks} states={len(states)} violations={len(violations)} harness_errors={len(harness)} wall={wall:.1f}s", flush=True)
+    print(f"{pid}: runs={ndone} ops={nops} checks={checks} states={len(states)} violations={len(violations)} harness_errors={len(harness)} wall={wall:.1f}s", flush=True)
     if violations:
         return 1
     if harness:
